@@ -1,21 +1,237 @@
-(* C05 — documented syntax is read (parser side).
-   The print-parse round trip (formatting preserves meaning, is idempotent) is assembled with
-   the printer model elsewhere; on every run it is checked at implementation level by the C05
-   correspondence (parse(format s) field by field, format(format s) = format s).
+(* C05 — documented syntax is read; formatting preserves meaning and is idempotent.
 
-   C05_grammar_accepted_partial covers these constructs of doc/syntax.md (Model/DocGrammar.v,
-   where every transcription choice is listed): ledger-file structure, vertical-space
-   (sp* new-line), new-line including <EOF> for the last line, top-level comments (all five
-   prefixes, blocks of lines), include, apply tag (key, key: value, key:: expr),
-   end apply tag, account and commodity declarations with note / alias / comment
-   sub-directives, LF and CRLF line ends, any Unicode text in names and comments.
-   NOT covered (checked by the correspondence run only, on texts produced by the grammar
-   generator of harness/src/pgen.rs): transaction, posting, metadata, value expressions,
-   lot / cost / balance assertion. *)
+   PRINT-PARSE ROUND TRIP (printer model Model/Display.v, parser model Model/Parse*.v, for every
+   display-width oracle `width`): covered constructs = ALL constructs of the syntax tree:
+   numeric literal in context, amount, value expression (parentheses, + - * / chains in
+   left-fold normal form, unary minus), lot price {..} / {{..}}, lot date, lot note, cost @ / @@,
+   posting line (indent, clear mark, account, padding, amount, lot, cost, balance assertion,
+   metadata lines), metadata (comment / word tags / key: value / key:: expr), transaction
+   header (date, effective date, clear mark, code, payee), whole transaction, top-level
+   comment, account / commodity declarations with comment / note / alias / format
+   sub-directives, apply tag, end apply tag, include, and the entry iterator with the blank
+   line that `format` puts after every entry.
+   The trees on which the round trip holds are the ones satisfying `wf_entry`
+   (Model/RoundTripSpec.v, one executable boolean per construct), in a list satisfying
+   `wf_ledger` (every entry wf_entry, and - the one condition that is not local to an entry -
+   after a transaction without code whose payee starts with `(`, nothing that is printed with a
+   `)`); `same_meaning` is equality up to the number-format flag of numbers whose integer part
+   has fewer than four digits.  C05_parser_image_wf shows that parse_ledger only returns such
+   lists, so C05_format_preserves and C05_format_idempotent hold for EVERY text that parses,
+   with no side condition.
+
+   DOCUMENTED GRAMMAR ACCEPTED: C05_grammar_accepted_txn_partial covers every construct of
+   doc/syntax.md (Model/DocGrammar.v and Model/DocGrammarTxn.v, where every transcription choice
+   is listed): ledger-file structure, vertical-space (sp* new-line), new-line including <EOF> for
+   the last line, LF and CRLF line ends, top-level comments (all five prefixes, blocks of lines),
+   include, apply tag (key, key: value, key:: expr), end apply tag, account and commodity
+   declarations with note / alias / comment sub-directives, any Unicode text in names and
+   comments, and transactions: header (date with either separator, effective date, clear mark,
+   code, payee), metadata lines (tag words, key: value, comment), postings (indent, clear mark,
+   account, "  " or tab, value expression with arbitrary sp*: parentheses up to 100 deep, + - * /,
+   unary minus, amount = documented decimal that fits 96 bits / 28 places with optional
+   commodity; lot price / date / note in any order, cost @ / @@, balance assertion).
+   (C05_grammar_accepted_partial is the earlier theorem without transactions; it is implied.)
+   Still NOT covered by the acceptance theorem (hence `_partial`): metadata written on the same
+   line as a posting or as the transaction header (`posting-line metadata? new-line`), and
+   `commodity-format`, which the doc names but never defines.  Documented texts that the parser
+   rejects, each excluded from the grammar by a listed choice with a vm_compute witness in
+   Proofs/DocAcceptTxn.v (the finding_ examples): an account of Unicode white space only, a comment like
+   `:a: hello`, an account that starts with * or ! without a mark, a payee that starts with (
+   without a code when a ) follows later, a day that does not exist, a number over 96 bits,
+   parentheses more than 100 deep (F7). *)
 From Coq Require Import List NArith.
-From Okv Require Import Model.ParseLedger Model.DocGrammar Proofs.DocAccept.
+From Okv Require Import Model.Lit Model.Syntax Model.Comb Model.ParseExpr Model.ParseMeta Model.ParsePosting
+  Model.ParseTxn Model.ParseLedger Model.Display Model.DocGrammar Model.RoundTripSpec
+  Model.DocGrammarTxn Proofs.DocAccept Proofs.DocAcceptTxn Proofs.RoundTripNum Proofs.RoundTripExpr Proofs.RoundTripLot Proofs.RoundTripMeta
+  Proofs.RoundTripPosting Proofs.RoundTripTxn Proofs.RoundTripDirective Proofs.RoundTripSame
+  Proofs.RoundTripLedger Proofs.RoundTripImage.
+Import ListNotations.
 
 Theorem C05_grammar_accepted_partial : forall s : list N,
   In_doc_grammar s -> exists es, parse_ledger s = LOk es.
 Proof. exact doc_grammar_accepted. Qed.
 Print Assumptions C05_grammar_accepted_partial.
+
+(* the documented grammar with transactions *)
+Theorem C05_grammar_accepted_txn_partial : forall s : list N,
+  In_doc_grammar_txn s -> exists es, parse_ledger s = LOk es.
+Proof. exact doc_grammar_txn_accepted. Qed.
+Print Assumptions C05_grammar_accepted_txn_partial.
+
+Theorem C05_grammar_txn_extends : forall s : list N, In_doc_grammar s -> In_doc_grammar_txn s.
+Proof. exact In_doc_grammar_txn_extends. Qed.
+Print Assumptions C05_grammar_txn_extends.
+
+(* ---- the round trip, construct by construct ---- *)
+Theorem C05_rt_number : forall d k, wf_num d = true -> starts_not is_decimal_char k ->
+  exists d', pretty_decimal (show d ++ k) = POk d' k /\ same_num d d'.
+Proof. exact pretty_decimal_show. Qed.
+Print Assumptions C05_rt_number.
+
+Theorem C05_rt_date : forall d k, wf_date d = true -> starts_not Comb.is_digit k ->
+  ParseExpr.date (fmt_date d ++ k) = POk d k.
+Proof. exact date_fmt. Qed.
+Print Assumptions C05_rt_date.
+
+Theorem C05_rt_amount : forall a k, wf_amount a = true -> follow_amount a k ->
+  exists a', amount (fst (fmt_amount a) ++ k) = POk a' (rest_amount a k) /\ same_amount a a'.
+Proof. exact amount_fmt. Qed.
+Print Assumptions C05_rt_amount.
+
+Theorem C05_rt_value_expr : forall fuel v k,
+  wf_vexpr v = true -> follow_v v k -> (length (show_vexpr v) <= fuel)%nat ->
+  exists v', value_expr fuel (show_vexpr v ++ k) = POk v' (rest_vexpr v k) /\ same_v v v'.
+Proof. exact value_expr_fmt. Qed.
+Print Assumptions C05_rt_value_expr.
+
+Theorem C05_rt_lot : forall fuel l k, wf_lot l = true -> starts_not is_lot_open (skip_sp k) ->
+  (length (print_lot l) <= fuel)%nat ->
+  exists l' psp, lot fuel (print_lot l ++ k) = POk (l', psp) (skip_sp k) /\ same_lot l l'.
+Proof. exact lot_fmt. Qed.
+Print Assumptions C05_rt_lot.
+
+Theorem C05_rt_posting_amount : forall fuel pa k,
+  wf_posting_amount pa = true -> follow_pa k -> (length (print_pa pa) <= fuel)%nat ->
+  exists pa' sps, posting_amount fuel (print_pa pa ++ k) = POk (pa', sps) (rest_pa pa k) /\
+                  same_posting_amount pa pa'.
+Proof. exact posting_amount_fmt. Qed.
+Print Assumptions C05_rt_posting_amount.
+
+Theorem C05_rt_metadata_line : forall fuel m k, wf_metadata m = true ->
+  (length (print_metadata m) <= fuel)%nat ->
+  line_metadata fuel ([59; 32] ++ print_metadata m ++ 10 :: k) = POk m k.
+Proof. exact line_metadata_fmt. Qed.
+Print Assumptions C05_rt_metadata_line.
+
+Theorem C05_rt_metadata_block : forall fuel ms k, forallb wf_metadata ms = true -> follow_block k ->
+  (length (10%N :: flat_map meta_line ms ++ k) <= fuel)%nat ->
+  block_metadata fuel (10 :: flat_map meta_line ms ++ k) = POk ms k.
+Proof. exact block_metadata_fmt. Qed.
+Print Assumptions C05_rt_metadata_block.
+
+Theorem C05_rt_account : forall fuel a k, wf_account a = true -> follow_account k ->
+  (length a <= fuel)%nat ->
+  exists sp, posting_account fuel (a ++ k) = POk (a, sp) (skip_sp k).
+Proof. exact posting_account_fmt. Qed.
+Print Assumptions C05_rt_account.
+
+Theorem C05_rt_posting : forall width fuel p k, wf_posting p = true -> follow_block k ->
+  (length (print_posting width p ++ k) <= fuel)%nat ->
+  exists p' sps,
+    preceded posting_indent (cut_err (posting fuel)) (print_posting width p ++ k) = POk (p', sps) k /\
+    same_posting p p'.
+Proof. exact posting_item_fmt. Qed.
+Print Assumptions C05_rt_posting.
+
+Theorem C05_rt_transaction : forall width fuel t k, wf_txn t = true -> follow_txn k ->
+  (open_paren_payee t = true -> no41 (print_txn width t ++ k) = true) ->
+  (length (print_txn width t ++ k) <= fuel)%nat ->
+  exists t' sps, transaction fuel (print_txn width t ++ k) = POk (t', sps) k /\ same_txn t t'.
+Proof. exact transaction_fmt. Qed.
+Print Assumptions C05_rt_transaction.
+
+(* every entry (transaction, comment, apply tag, end apply tag, include, account and commodity
+   declarations), followed by the blank line `format` writes after it *)
+Theorem C05_rt_entry : forall width fuel e k, wf_entry e = true ->
+  (entry_open_paren e = true -> no41 (print_entry width e ++ 10 :: k) = true) ->
+  (length (print_entry width e ++ 10%N :: k) <= fuel)%nat ->
+  exists e' sps, parse_ledger_entry fuel (print_entry width e ++ 10 :: k) = POk (e', sps) (10 :: k) /\
+                 same_entry e e'.
+Proof. exact entry_fmt. Qed.
+Print Assumptions C05_rt_entry.
+
+(* ---- the whole text ---- *)
+Theorem C05_roundtrip : forall width es, wf_ledger es = true ->
+  exists es', parse_ledger (format_entries width es) = LOk es' /\ same_meaning es (map e_entry es').
+Proof. exact format_roundtrip. Qed.
+Print Assumptions C05_roundtrip.
+
+(* entries with the same meaning are printed the same *)
+Theorem C05_same_meaning_same_text : forall width es es',
+  same_meaning es es' -> format_entries width es' = format_entries width es.
+Proof. exact same_meaning_format. Qed.
+Print Assumptions C05_same_meaning_same_text.
+
+(* the two laws with the well-formedness of the entries as the hypothesis *)
+Theorem C05_format_preserves_wf : forall width s es,
+  parse_ledger s = LOk es -> wf_ledger (map e_entry es) = true ->
+  exists es', parse_ledger (format_entries width (map e_entry es)) = LOk es' /\
+              same_meaning (map e_entry es) (map e_entry es').
+Proof. exact format_preserves. Qed.
+Print Assumptions C05_format_preserves_wf.
+
+Theorem C05_format_idempotent_wf : forall width s t,
+  format_text width s = Some t ->
+  (forall es, parse_ledger s = LOk es -> wf_ledger (map e_entry es) = true) ->
+  format_text width t = Some t.
+Proof. exact format_idempotent. Qed.
+Print Assumptions C05_format_idempotent_wf.
+
+(* ---- the parser only returns well-formed entries ---- *)
+Theorem C05_parser_image_number : forall i d r, pretty_decimal i = POk d r -> wf_num d = true.
+Proof. exact RoundTripImageExpr.pretty_decimal_wf. Qed.
+Print Assumptions C05_parser_image_number.
+
+Theorem C05_parser_image_value_expr : forall fuel i v r, value_expr fuel i = POk v r -> wf_vexpr v = true.
+Proof. exact RoundTripImageExpr.value_expr_wf. Qed.
+Print Assumptions C05_parser_image_value_expr.
+
+Theorem C05_parser_image_posting_amount : forall fuel i pa sps r,
+  posting_amount fuel i = POk (pa, sps) r -> wf_posting_amount pa = true.
+Proof. exact RoundTripImageExpr.posting_amount_wf. Qed.
+Print Assumptions C05_parser_image_posting_amount.
+
+Theorem C05_parser_image_metadata : forall fuel i ms r,
+  block_metadata fuel i = POk ms r -> forallb wf_metadata ms = true.
+Proof. exact block_metadata_wf. Qed.
+Print Assumptions C05_parser_image_metadata.
+
+Theorem C05_parser_image_posting : forall fuel i p sps r,
+  posting fuel i = POk (p, sps) r -> wf_posting p = true.
+Proof.
+  exact (RoundTripImageTxn.posting_wf RoundTripImageExpr.value_expr_wf RoundTripImageExpr.posting_amount_wf
+           RoundTripImageExpr.date_wf).
+Qed.
+Print Assumptions C05_parser_image_posting.
+
+Theorem C05_parser_image_transaction : forall fuel i t sps r,
+  transaction fuel i = POk (t, sps) r -> wf_txn t = true.
+Proof.
+  exact (RoundTripImageTxn.transaction_wf RoundTripImageExpr.value_expr_wf RoundTripImageExpr.posting_amount_wf
+           RoundTripImageExpr.date_wf).
+Qed.
+Print Assumptions C05_parser_image_transaction.
+
+Theorem C05_parser_image_entry : forall fuel i e sps r,
+  parse_ledger_entry fuel i = POk (e, sps) r -> wf_entry e = true.
+Proof. exact parse_ledger_entry_wf. Qed.
+Print Assumptions C05_parser_image_entry.
+
+(* a transaction whose payee starts with `(` without a code was read from a text without `)`
+   from there on: the transaction and the rest of the text have none *)
+Theorem C05_parser_image_open_paren : forall fuel i t sps r,
+  transaction fuel i = POk (t, sps) r -> open_paren_payee t = true -> np_txn t = true /\ no41 r = true.
+Proof. exact RoundTripImageNo41.transaction_open_paren_np. Qed.
+Print Assumptions C05_parser_image_open_paren.
+
+(* everything parse_ledger returns is a well-formed ledger *)
+Theorem C05_parser_image_wf : forall s es,
+  parse_ledger s = LOk es -> wf_ledger (map e_entry es) = true.
+Proof. exact parser_image_wf. Qed.
+Print Assumptions C05_parser_image_wf.
+
+(* ---- the two laws, for every text ----
+   formatting preserves meaning: for every text that parses, the formatted text parses to
+   entries with the same meaning *)
+Theorem C05_format_preserves : forall width s es,
+  parse_ledger s = LOk es ->
+  exists es', parse_ledger (format_entries width (map e_entry es)) = LOk es' /\
+              same_meaning (map e_entry es) (map e_entry es').
+Proof. exact format_preserves_parsed. Qed.
+Print Assumptions C05_format_preserves.
+
+(* formatting formatted text returns it unchanged *)
+Theorem C05_format_idempotent : forall width s t,
+  format_text width s = Some t -> format_text width t = Some t.
+Proof. exact format_idempotent_parsed. Qed.
+Print Assumptions C05_format_idempotent.
